@@ -72,6 +72,11 @@ ExpectAfter(kind, side, first, uns) ==
          -> IF side = "srv" THEN {"BADSIG"} ELSE {"BadSig"}
     \* other-data that is neither empty nor a time stamp: the record cannot be interpreted
     [] kind = "SetOther" -> IF side = "srv" THEN {"FORMERR"} ELSE {"FormErr"}
+    \* RFC 8945 5.2.2.1: a MAC longer than the algorithm's output is FORMERR; it also
+    \* cannot equal the computed MAC (BADSIG) - either rejection is admitted.  A
+    \* truncated MAC extended to at most the native length is just a wrong MAC.
+    [] kind = "ExtendMac" -> IF side = "srv" THEN {"FORMERR", "BADSIG"} ELSE {"FormErr", "BadSig"}
+    [] kind = "ExtendWithin" -> IF side = "srv" THEN {"BADSIG"} ELSE {"BadSig"}
     [] kind = "TruncShort" -> IF side = "srv" THEN {"BADTRUNC", "FORMERR"} ELSE {"BadTrunc", "FormErr"}
     [] kind \in {"RenameKey", "SwapAlg"} -> IF side = "srv" THEN {"BADKEY"} ELSE {"BadKey"}
     [] kind \in {"MoveTsig", "DupTsig"} -> IF side = "srv" THEN {"FORMERR"} ELSE {"FormErr"}
@@ -143,6 +148,10 @@ AdvTruncMac == CanTamper /\ \E n \in {0, 9, RecvMin - 1, RecvMin} :
                 /\ n >= 0 /\ n < Len(LastRec(M0).mac)
                 /\ Tamper(IF n < RecvMin THEN "TruncShort" ELSE "TruncOk", n,
                           WithTsig(M0, [LastRec(M0) EXCEPT !.mac = Take(@, n)]))
+\* n octets appended to the transmitted (full-length or truncated) MAC
+AdvExtendMac == CanTamper /\ \E n \in {1, 16} :
+                Tamper(IF Len(LastRec(M0).mac) + n > Native(cfg.kc.alg) THEN "ExtendMac" ELSE "ExtendWithin", n,
+                       WithTsig(M0, [LastRec(M0) EXCEPT !.mac = @ \o [i \in 1..n |-> 998]]))
 AdvRenameKey == CanTamper /\ Tamper("RenameKey", 0, WithTsig(M0, [LastRec(M0) EXCEPT !.name = KeyNameX]))
 AdvRecaseKey == CanTamper /\ pc = "net2" /\
                 Tamper("RecaseKey", 0, WithTsig(M0, [LastRec(M0) EXCEPT !.name = KeyNameC]))
@@ -174,7 +183,7 @@ AdvInsertUnsigned ==
         /\ outs' = Append(outs, [res |-> "Ok"])
   /\ UNCHANGED <<cfg, pc, pre, cli, srv, rfc, macs, nans>>
 
-Adversary == \/ AdvFlipBody \/ AdvFlipMac \/ AdvTruncMac \/ AdvRenameKey \/ AdvRecaseKey
+Adversary == \/ AdvFlipBody \/ AdvFlipMac \/ AdvTruncMac \/ AdvExtendMac \/ AdvRenameKey \/ AdvRecaseKey
              \/ AdvSwapAlg \/ AdvChangeOrigId \/ AdvRewriteId \/ AdvShiftTime \/ AdvStripTsig
              \/ AdvMoveTsig \/ AdvDupTsig \/ AdvSetErr \/ AdvSetOther \/ AdvForgeErr
              \/ AdvInsertUnsigned
